@@ -19,6 +19,8 @@ CONSTANTS
   ParserContinuesAfterShortRange = FALSE
   Budget0PlansNothing = FALSE
   TailInitPersistsZero = TRUE
+  CkptCountedOnEveryReport = FALSE
+  NewProcReopen = FALSE
 INVARIANTS RefinesCex
 VIEW View
 CHECK_DEADLOCK FALSE
